@@ -1,4 +1,5 @@
 import pprint
+import numbers
 from collections import OrderedDict
 import numpy
 import pandas
@@ -50,7 +51,7 @@ def _pipeline_info(pipe, data, context, former_data=None):
         infos = []
         outputs = []
         for _, model, vs in pipe.transformers:
-            if all(map(lambda o: isinstance(o, int), vs)):
+            if all(map(lambda o: isinstance(o, numbers.Integral), vs)):
                 new_data = []
                 if isinstance(data, OrderedDict):
                     new_data = [_[1] for _ in data.items()]
